@@ -125,48 +125,57 @@ def session_traces(ctx, streams, ids, rnd):
         merges = list(itertools.combinations(range(na + nb), na))
         if len(merges) > (40 if ctx.quick else 400):
             merges = rnd.sample(merges, 40 if ctx.quick else 400)
+        def play(merge, dbg, a=a, b=b, refs=refs, na=na, nb=nb):
+            timed_out = [False]
+            spec = U.build_type(a.T)                       # ONE schema object shared by both decoders and the one-shot calls
+            snap0 = digest(spec)
+            if dbg:
+                debug.setLogger(debug.Debug('all', printer=lambda msg: None))
+            try:
+                srcs = [S.GrowingRaw(seekable=True), S.GrowingRaw(seekable=False)]
+                its = [iter(SP.STREAMING[a.rules](srcs[0], asn1Spec=spec)), iter(SP.STREAMING[b.rules](srcs[1], asn1Spec=spec))]
+                ev = []
+                for d, st in enumerate((a, b)):
+                    srcs[d].feed(st.data)
+                    srcs[d].close_source()
+                    ev += [1, d + 1, len(st.data), 1, 0]
+                nobj = [0, 0]
+                m = [a.matcher(), b.matcher()]
+                order = [0 if i in merge else 1 for i in range(na + nb)]
+                step = 0
+                for d in order:
+                    before = digest(spec)
+                    code, payload = S.classify_poll(its[d])
+                if code == S.CRASH and payload == '_Timeout':
+                    timed_out[0] = True
+                    idx = 0
+                    if code == S.OBJ:
+                        nobj[d] += 1
+                        try:
+                            pj = m[d](payload)
+                        except Exception:
+                            pj = None
+                        if nobj[d] <= len(refs[d]) and pj == refs[d][nobj[d] - 1]:
+                            idx = nobj[d]
+                    ev += [2, d + 1, code, idx, 0]
+                    ev += [3, 1, ids(before), ids(digest(spec)), 0]
+                    step += 1
+                    if step == 2:
+                        # a one-shot call on the same schema object in the middle of the session
+                        o = outcome(lambda: json.dumps(U.project(a.T, ber_dec.decode(a.items[0], asn1Spec=spec)[0]), sort_keys=True))
+                        iso = outcome(lambda: json.dumps(U.project(a.T, ber_dec.decode(a.items[0], asn1Spec=U.build_type(a.T))[0]), sort_keys=True))
+                        ev += [4, 0, ids(o), ids(iso), 0]
+                        ev += [3, 1, ids(snap0), ids(digest(spec)), 0]
+            finally:
+                if dbg:
+                    debug.setLogger(0)
+            return ev, order, timed_out[0]
+
         for merge in merges:
             for dbg in (False, True):
-                spec = U.build_type(a.T)                       # ONE schema object shared by both decoders and the one-shot calls
-                snap0 = digest(spec)
-                if dbg:
-                    debug.setLogger(debug.Debug('all', printer=lambda msg: None))
-                try:
-                    srcs = [S.GrowingRaw(seekable=True), S.GrowingRaw(seekable=False)]
-                    its = [iter(SP.STREAMING[a.rules](srcs[0], asn1Spec=spec)), iter(SP.STREAMING[b.rules](srcs[1], asn1Spec=spec))]
-                    ev = []
-                    for d, st in enumerate((a, b)):
-                        srcs[d].feed(st.data)
-                        srcs[d].close_source()
-                        ev += [1, d + 1, len(st.data), 1, 0]
-                    nobj = [0, 0]
-                    m = [a.matcher(), b.matcher()]
-                    order = [0 if i in merge else 1 for i in range(na + nb)]
-                    step = 0
-                    for d in order:
-                        before = digest(spec)
-                        code, payload = S.classify_poll(its[d])
-                        idx = 0
-                        if code == S.OBJ:
-                            nobj[d] += 1
-                            try:
-                                pj = m[d](payload)
-                            except Exception:
-                                pj = None
-                            if nobj[d] <= len(refs[d]) and pj == refs[d][nobj[d] - 1]:
-                                idx = nobj[d]
-                        ev += [2, d + 1, code, idx, 0]
-                        ev += [3, 1, ids(before), ids(digest(spec)), 0]
-                        step += 1
-                        if step == 2:
-                            # a one-shot call on the same schema object in the middle of the session
-                            o = outcome(lambda: json.dumps(U.project(a.T, ber_dec.decode(a.items[0], asn1Spec=spec)[0]), sort_keys=True))
-                            iso = outcome(lambda: json.dumps(U.project(a.T, ber_dec.decode(a.items[0], asn1Spec=U.build_type(a.T))[0]), sort_keys=True))
-                            ev += [4, 0, ids(o), ids(iso), 0]
-                            ev += [3, 1, ids(snap0), ids(digest(spec)), 0]
-                finally:
-                    if dbg:
-                        debug.setLogger(0)
+                ev, order, timed_out = play(merge, dbg)
+                if timed_out:      # a poll cannot be repeated, the session can: a time-out counts only when it repeats
+                    ev, order, timed_out = play(merge, dbg)
                 tid += 1
                 traces.append({'id': tid, 'ends': [a.ends, b.ends], 'ev': ev})
                 meta[tid] = {'kind': 'session', 'streams': [a.label, b.label], 'data': [a.data.hex(), b.data.hex()],
